@@ -46,6 +46,7 @@ class Observation:
         self.recv_calls = 0
         self.recv_bytes = 0
         self.unread = 0
+        self.spin = False
 
     def summary(self):
         """application-visible outcome, comparable across segmentations"""
@@ -55,6 +56,7 @@ class Observation:
             "closed": self.closed,
             "problem": self.problem,
             "handle_errors": [(a, b) for a, b, _c, _d in self.handle_errors],
+            "spin": self.spin,
         }
 
 
@@ -98,6 +100,8 @@ def observe(segments, adj=None, eof=True, app=None, unix=False, send_caps=None, 
         o.closed = c.closed
         o.close_calls = len(c.close_calls)
         o.handle_errors = list(w.handle_errors)
+        o.spin = w.spin
+        o.pending_out = sum(getattr(ch, 'total_outbufs_len', 0) for ch in list(w.map.values()))
         o.logs = list(w.logs)
         o.recv_calls = c.calls.get("recv", 0)
         o.recv_log = list(c.recv_log)
